@@ -58,6 +58,15 @@ func fnExec(ctx *cmdContext, args map[string]any) (output respValue, err error) 
 		return
 	}
 
+	// a queued FLUSHALL locks the other data stores as well; see fnFlushAll
+	for _, cc := range *ctx.cs.cmdQueue {
+		if cc.cmdToken == "flushall" {
+			multiDataStoreLock.Lock()
+			defer multiDataStoreLock.Unlock()
+			break
+		}
+	}
+
 	// take complete ownership of the data store
 	ctx.dsc.acquireExclusive()
 	defer ctx.dsc.releaseExclusive()
